@@ -6,9 +6,10 @@ node-and-network model (DESIGN.md 3). This check
   2. runs an in-process network of REAL isaacstates.States instances (harness/internal/isaacnet:
      real Ballotbox, LastVoteproofsHandler, DefaultBallotBroadcaster over TempPool, ProposalProcessors
      + DefaultProposalProcessor, ProposalMaker + BaseProposalSelector, Syncer; really signed ballots)
-     in four seeded scenarios - (a) all honest and connected, (b) one node cut off and healed (goes
+     in five seeded scenarios - (a) all honest and connected, (b) one node cut off and healed (goes
      through SYNCING), (c) delayed ballots + unreachable proposers (draws, next rounds), (d) one
-     Byzantine equivocating member - and validates every recorded execution with spec/ISAACTrace.tla:
+     Byzantine equivocating member, (e) one honest node whose block production diverges at two heights
+     (must not save its block: C11) - and validates every recorded execution with spec/ISAACTrace.tla:
      ISAAC's invariants on every state of the trace plus the guard of the ISAAC action each logged
      step stands for.
 Verdict keys: ISAAC:<invariant or guard>. Liveness (no progress inside the time budget) is never a
@@ -208,29 +209,32 @@ def judge(ctx, k, path, head, evs, tevs, ok, res, hw):
 
 
 def run(ctx):
-    ctx.level = "model_checking+trace_validation"
+    ctx.level = "model_checking"
     # 1. the specification itself
     if ctx.tier == "quick":
         ctx.tlc("ISAAC", "ISAAC_mc_small.cfg", timeout=400)
     else:
         ctx.tlc("ISAAC", "ISAAC_mc_quick.cfg", timeout=2400)
-        try:
-            ctx.tlc("ISAAC", "ISAAC_mc_byz.cfg", timeout=1500)
-        except core.MachineryError as e:
-            if "timed out" not in str(e):
-                raise
-            ctx.extra["ISAAC_mc_byz"] = "not finished in 25 min on this machine; skipped"
+        # 4 nodes with one Byzantine member: the exhaustive run does not finish (> 8.5 M distinct states after
+        # 17 min, queue still growing), so this instance is explored by random behaviours
+        r = ctx.tlc("ISAAC", "ISAAC_mc_byz.cfg", args=["-simulate", "num=4000", "-depth", 60, "-seed", ctx.seed],
+                    workers=8, timeout=1500, count=False)
+        m = re.findall(r"The number of states generated: (\d+)", r.out)
+        t = re.findall(r"(\d+) traces generated", r.out)
+        ctx.extra["ISAAC_mc_byz_simulation"] = {"states_checked": int(m[-1]) if m else 0, "behaviours": int(t[-1]) if t else 0}
+        if m:
+            ctx.states += int(m[-1])
+            ctx.transitions += int(m[-1])
 
     # 2. real executions
     seed = ctx.seed
     if ctx.tier == "quick":
-        runs = [("a", seed), ("b", seed), ("c", seed), ("d", seed)]
-        par = 4
+        runs = [("a", seed), ("b", seed), ("c", seed), ("d", seed), ("e", seed)]
+        par = 5
     else:
         runs = []
-        for j in range(8):
-            runs += [("a", seed * 100 + j), ("b", seed * 100 + j), ("c", seed * 100 + j), ("d", seed * 100 + j)]
-        runs = runs[:30]
+        for j in range(6):
+            runs += [(sc, seed * 100 + j) for sc in "abcde"]
         par = 5
     outdir = os.path.join(ctx.work, "runs")
     p = ctx.vh(["ISAAC", "batch", "--runs", ",".join("%s:%d" % r for r in runs), "--par", par, "--outdir", outdir],
